@@ -51,6 +51,8 @@ OPS = {
     'kron': (['any', 'same'], lambda E, o, s: o[0] ** o[1]),
     'kron_fn': (['any', 'same'], lambda E, o, s: E.tt.kron(o[0], o[1])),
     'kron_none': (['any'], lambda E, o, s: E.tt.kron(o[0], None)),
+    'kron_none_left': (['any'], lambda E, o, s: E.tt.kron(None, o[0])),
+    'pow_none': (['any'], lambda E, o, s: o[0] ** None),
     'full': (['any'], lambda E, o, s: o[0].full()),
     'numpy': (['any'], lambda E, o, s: o[0].numpy()),
     'sum_all': (['any'], lambda E, o, s: o[0].sum()),
